@@ -197,8 +197,10 @@ namespace {
         }
         int some_offset( int n )
         {
-            switch ( rnd( 0, 7 ) )
+            switch ( rnd( 0, 8 ) )
             {
+            // a valid low octet under a non zero high octet (offsets that only differ beyond 8 bit)
+            case 8: return ( rnd( 1, 255 ) << 8 ) | rnd( 0, std::max( 0, n - 1 ) );
             case 0:
             case 1: return 0;
             case 2: return std::max( 0, n - 1 );
@@ -381,7 +383,7 @@ namespace {
             if ( prop == "C02" ) return { { 30, FI }, { 35, RBT }, { 20, RBGT }, { 5, FBTV }, { 4, MTU }, { 3, RD }, { 3, RAWOP } };
             if ( prop == "C03" ) return { { 45, RBGT }, { 45, FBTV }, { 4, MTU }, { 3, FI }, { 3, RAWOP } };
             if ( prop == "C05" ) return { { 14, RD }, { 8, RDB }, { 12, RBT }, { 8, RDM }, { 14, WR }, { 8, WRC }, { 10, PREP }, { 6, EXEC }, { 3, MTU }, { 3, CONF }, { 2, RAWOP } };
-            if ( prop == "C06" ) return { { 20, RD }, { 18, RDB }, { 6, RBT }, { 6, RDM }, { 24, WR }, { 12, WRC }, { 4, PREP }, { 3, EXEC }, { 4, MTU }, { 3, RAWOP } };
+            if ( prop == "C06" ) return { { 18, RD }, { 16, RDB }, { 6, RBT }, { 6, RDM }, { 22, WR }, { 10, WRC }, { 9, PREP }, { 6, EXEC }, { 4, MTU }, { 3, RAWOP } };
             if ( prop == "C07" ) return { { 40, PREP }, { 18, EXEC }, { 12, WR }, { 12, RD }, { 5, RDB }, { 4, WRC }, { 3, MTU }, { 3, RAWOP } };
             if ( prop == "C08" ) return { { 30, MTU }, { 15, RD }, { 10, RDB }, { 12, RBT }, { 6, RDM }, { 6, FI }, { 8, WR }, { 4, CONF }, { 3, RAWOP }, { 4, RBGT } };
             if ( prop == "C09" ) return { { 45, WR }, { 12, WRC }, { 15, RD }, { 10, PREP }, { 6, EXEC }, { 4, MTU }, { 3, RAWOP } };
@@ -420,8 +422,91 @@ namespace {
             return r;
         }
 
+        std::vector< Op > pending_;   // rest of a scenario (in reverse order)
+
+        Op make( int kind, int conn, int a, int b, const bytes& data )
+        {
+            Op o;
+            o.kind = kind;
+            o.conn = conn;
+            o.a    = a;
+            o.b    = b;
+            o.data = data;
+            return o;
+        }
+
+        // targeted multi step sequences that plain random walks reach too rarely
+        bool scenario()
+        {
+            std::vector< Op > seq;
+            const int         c = conn();
+            if ( ( prop == "C05" || prop == "C10" || prop == "C11" || prop == "C08" ) && chance( 50 ) )
+            {
+                // subscribe (while encrypted), change the security of the link, request, poll
+                const auto n = notifying_chrs();
+                if ( n.empty() )
+                    return false;
+                const int      chr = pick( n );
+                const vg::Chr& ch  = db.chrs[ chr ];
+                bytes          wr{ 0x12 };
+                put16( wr, db.attrs[ ch.cccd_attr ].handle );
+                wr.push_back( static_cast< std::uint8_t >( chance( 70 ) ? 3 : rnd( 0, 3 ) ) );
+                wr.push_back( 0 );
+                seq.push_back( make( OP_SEC, c, 2, 0, bytes() ) );
+                seq.push_back( make( OP_REQ, c, 0, 0, wr ) );
+                if ( chance( 70 ) )
+                    seq.push_back( make( OP_SEC, c, rnd( 0, 2 ), 0, bytes() ) );
+                const int k = rnd( 1, 3 );
+                for ( int i = 0; i != k; ++i )
+                    seq.push_back( make( OP_NTF, c, chance( 80 ) ? chr : pick( n ), rnd( 0, 3 ), bytes() ) );
+                for ( int i = 0; i != k + 1; ++i )
+                    seq.push_back( make( OP_OUT, c, 0, 0, bytes() ) );
+            }
+            else if ( ( prop == "C06" || prop == "C07" || prop == "C05" || prop == "C09" ) && db.queue_size )
+            {
+                // prepare (1..3 parts), execute, read back
+                const int h = write_target();
+                const int n = value_size_of_handle( h );
+                const int k = rnd( 1, 3 );
+                for ( int i = 0; i != k; ++i )
+                {
+                    bytes pw{ 0x16 };
+                    put16( pw, h );
+                    const int off = chance( 70 ) ? rnd( 0, std::max( 0, n - 1 ) ) : some_offset( n );
+                    put16( pw, off );
+                    const bytes d = write_data( h, rnd( 0, std::max( 0, std::min( n - std::min( off & 0xff, n ), 18 ) ) ) );
+                    pw.insert( pw.end(), d.begin(), d.end() );
+                    seq.push_back( make( OP_REQ, c, 0, 0, pw ) );
+                }
+                seq.push_back( make( OP_REQ, c, 0, 0, bytes{ 0x18, static_cast< std::uint8_t >( chance( 85 ) ? 1 : 0 ) } ) );
+                bytes rd{ 0x0a };
+                put16( rd, h );
+                seq.push_back( make( OP_REQ, c, 0, 0, rd ) );
+            }
+            else
+                return false;
+            pending_.assign( seq.rbegin(), seq.rend() );
+            return true;
+        }
+
         Op op()
         {
+            if ( !pending_.empty() )
+            {
+                // a scenario may be interleaved with other operations
+                if ( !chance( 15 ) )
+                {
+                    const Op o = pending_.back();
+                    pending_.pop_back();
+                    return o;
+                }
+            }
+            else if ( chance( 6 ) && scenario() )
+            {
+                const Op o = pending_.back();
+                pending_.pop_back();
+                return o;
+            }
             Op o;
             // op kind weights per property: req sec con dis set ntf out walk adv scan
             std::vector< std::pair< int, int > > w;
